@@ -154,14 +154,14 @@ func ZZC19Tabs() {
 	}
 }
 
-// C19-K7: multi-byte characters. A one-line file of three (thorough: four) "characters", each arbitrary in {a, TAB, é (2 bytes), € (3 bytes),
+// C19-K7: multi-byte characters. A one-line file of three (thorough: four) "characters", each arbitrary in {a, TAB, À (2 bytes, C3 80), — (3 bytes, E2 80 94),
 // nothing}; the diagnostic's column is the byte column of any character boundary (what go/token reports): the caret row has
 // ONE cell per character before the column (a tab for a tab), so that the caret stands under the reported character.
 func ZZC19Utf8()   { zzC19Utf8(3) }
 func ZZC19Utf8x4() { zzC19Utf8(4) }
 
 func zzC19Utf8(n int) {
-	alphabet := []string{"a", "\t", "é", "€", ""}
+	alphabet := []string{"a", "\t", "À", "—", ""} // À = C3 80, — = E2 80 94: inner bytes at both ends of 0x80..0xBF
 	ch := make([]string, n)
 	line := ""
 	for i := range ch {
